@@ -483,7 +483,8 @@ func (h *httpServerHandler) handlePostResponse(ctx context.Context, w http.Respo
 	}
 
 	// Deliver response using responseManager.
-	if h.responseManager.DeliverResponse(requestIDStr, responseMessage) {
+	// Only the session the request was sent to may answer it.
+	if h.responseManager.DeliverResponse(pendingRequestKey(sessionID, requestIDStr), responseMessage) {
 		h.logger.Debugf("Successfully delivered response for request ID: %v", response.ID)
 	} else {
 		h.logger.Debugf("Received response for unknown request ID: %v", response.ID)
@@ -758,7 +759,7 @@ func (h *httpServerHandler) SendRequest(ctx context.Context, sessionID string, r
 	}
 
 	// Register request and get response channel.
-	requestIDStr := requestIDKey(request.ID)
+	requestIDStr := pendingRequestKey(sessionID, requestIDKey(request.ID))
 	responseChan := h.responseManager.RegisterRequest(requestIDStr)
 	defer h.responseManager.UnregisterRequest(requestIDStr)
 
@@ -822,6 +823,11 @@ func newResponseManager() *responseManager {
 	return &responseManager{
 		pendingRequests: make(map[string]chan *json.RawMessage),
 	}
+}
+
+// pendingRequestKey identifies a pending server-to-client request by the session it was sent to and its id.
+func pendingRequestKey(sessionID, requestID string) string {
+	return sessionID + "\x00" + requestID
 }
 
 // GenerateRequestID generates a unique request ID.
